@@ -7,7 +7,8 @@
 //!     byte orders, several start offsets;
 //! (b) for every reference encoding of the C01 corpus (types ≤ 3 nodes, `rv::values`): every
 //!     single-byte substitution over the alphabet at every position and every truncation (thorough:
-//!     also every pair of substitutions within an 8-byte window);
+//!     also every pair of substitutions within an 8-byte window — evaluated, but not counted in
+//!     `distinct_nontrivial`);
 //! (c) every string of length ≤ K over the signature alphabet "ybisogvha(){}" used as the
 //!     signature of a variant (body: the reference encoding of the type's first value when the
 //!     signature is a valid single complete type, zero bytes otherwise), as the value of a `g`, and
@@ -228,7 +229,9 @@ fn evaluate(
     }
     // non-trivial: accepted, or rejected for a reason other than running out of input
     let ref_norm = reference.as_ref().ok().map(|(v, n)| (norm_dicts(v), *n));
+    // (pair mutants are evaluated but not entered into the distinct-case set: it would not fit in memory)
     match &reference {
+        _ if part == "b:pair" => {}
         Ok((_, n)) => {
             acc.nontrivial.insert(vcommon::hash64(&(ty.sig(), be, base % 8, "ok", &bytes[..*n])));
         }
@@ -406,7 +409,7 @@ fn evaluate(
 // ------------------------------------------------------------------------------------------
 
 fn part_a(report: &Report, args: &Args) {
-    let l = args.tier.pick(5, 7);
+    let l = args.tier.pick(5, 6);
     let offsets: &[usize] = args.tier.pick(&[0, 3, 6], &[0, 1, 3, 6]);
     let types = rv::all_types(2, false);
     let k = ALPHABET.len();
@@ -459,7 +462,7 @@ fn part_a(report: &Report, args: &Args) {
 
 fn part_b(report: &Report, args: &Args) {
     let corpus = zvx::corpus(3, false, CAP);
-    let offsets: &[usize] = args.tier.pick(&[0, 1, 4, 7], &[0, 1, 2, 3, 4, 5, 6, 7]);
+    let offsets: &[usize] = args.tier.pick(&[0, 1, 4, 7], &[0, 1, 3, 4, 6, 7]);
     let pairs = args.tier.pick(false, true);
     report.set("b_types", json!(corpus.items.len()));
     report.set("b_seed_values", json!(corpus.items.iter().map(|(_, v)| v.len()).sum::<usize>()));
